@@ -106,6 +106,10 @@ class ExprMixin:
                 sv = SV(sv.ty, tuple_term(sv), items=sv.items)  # storable in a list
             return sv
         if ty.kind == "val":
+            if sv.ty.kind in ("fun", "opaque", "gen"):
+                return SV(VAL, self.fresh_const("opaque", VAL))  # a value the model does not look into
+            if sv.ty.kind == "tuple":
+                return SV(VAL, self.fresh_const("tuple", VAL))
             return SV(VAL, box(sv))
         if sv.ty.kind == "val":
             r = unbox(sv.t, ty)
